@@ -78,6 +78,15 @@ let handle (line : string) : string =
   match split_ws line with
   | "S" :: r -> handle_sort r
   | "OFF" :: r -> handle_off r
+  | "PR" :: file :: off :: size :: script :: [] ->
+      (* PR <file bytes hex|-> <off> <size> <d3,i,d1,...>  : util::ErsatzPRead with dictated pread return lengths *)
+      let bytes = if file = "-" then [] else List.init (String.length file / 2) (fun i -> String.sub file (2 * i) 2) in
+      let o = List.map (fun t -> if t = "i" then Eintr else Short (nat_of_int (int_of_string (String.sub t 1 (String.length t - 1)))))
+          (List.filter (fun t -> t <> "") (String.split_on_char ',' script)) in
+      (match ersatz_pread o bytes (nat_of_int (int_of_string ("0x" ^ size))) (nat_of_int (int_of_string ("0x" ^ off))) O with
+       | PROk (g, c) -> "OK " ^ (if g = [] then "-" else String.concat "" g) ^ " " ^ string_of_int (int_of_nat c)
+       | PREof c -> "EOF " ^ string_of_int (int_of_nat c)
+       | PRNoOutcome -> "NO-OUTCOME")
   | _ -> "?"
 
 let () = each_line handle
